@@ -12,6 +12,7 @@ mod c01;
 mod c02;
 mod c03;
 mod c04;
+mod c05;
 mod tree;
 mod c09;
 mod c10;
@@ -32,6 +33,16 @@ fn main() {
     if args.len() < 3 {
         eprintln!("usage: vh corr|search <Cxx> [tier]");
         std::process::exit(2);
+    }
+    if args[1] == "write" {
+        // vh write <file> [preserve]
+        let data = std::fs::read(&args[2]).unwrap();
+        let o = corpus::opts_for(Some(std::path::Path::new(&args[2])));
+        let t = usvg::Tree::from_data(&data, &o).unwrap();
+        let mut w = usvg::WriteOptions::default();
+        w.preserve_text = args.get(3).map(|s| s == "preserve").unwrap_or(false);
+        println!("{}", t.to_string(&w));
+        return;
     }
     if args[1] == "c14dbg" {
         let svg = std::fs::read_to_string(&args[2]).unwrap();
@@ -62,6 +73,6 @@ fn main() {
             }
         };
     }
-    dispatch!("C01" => c01, "C02" => c02, "C03" => c03, "C04" => c04, "C09" => c09, "C10" => c10, "C11" => c11, "C13" => c13,
+    dispatch!("C01" => c01, "C02" => c02, "C03" => c03, "C04" => c04, "C05" => c05, "C09" => c09, "C10" => c10, "C11" => c11, "C13" => c13,
         "C14" => c14, "C15" => c15, "C16" => c16, "C17" => c17);
 }
